@@ -657,7 +657,7 @@ func c18ExecMux(x *hysim.Run) {
 	}
 	time.Sleep(time.Second)
 	synctest.Wait()
-	if al := x.Alive(); len(al) != 0 {
+	if al := x.WaitTasks(30 * time.Second); len(al) != 0 {
 		x.Violate("mux-goroutine-leak", "tasks still alive after everything was closed: %v", al)
 	}
 }
